@@ -38,7 +38,7 @@ PROPS = {
         ],
     },
     "C10": {
-        "units": ["hooks", "config", "storage", "schedule", "issue"],
+        "units": ["hooks", "setenv", "config", "storage", "schedule", "issue"],
         "design_ref": "DESIGN.md section 5 C10",
         "technique": "Verus function contracts over a ghost sequence of spawned processes; recursive spec for group expansion; ghost event trace for the file-write bracket",
         "text": "Deductive proof that hooks::call spawns exactly the hooks whose type list contains the event type, in declaration order, "
@@ -49,8 +49,8 @@ PROPS = {
         "assumptions": [
             "T: async_process::Command / Stdio / Child as modelled in prelude/hooks_shims.rs; minijinja rendering is the uninterpreted render_spec",
             "T: HookType obeys the hash-map key model (derived Hash/Eq)",
-            "X: environment precedence inside set_env (HashMap iteration) and the challenge / clean / post-operation hook data (certificate.rs, acme_proto.rs); "
-            "the split of a certificate's hooks into file hooks and certificate hooks (MainEventLoop::new); what the child processes do",
+            "T: std::env::vars and HashMap<String,String>::{entry().or_insert, insert, iter} as modelled in prelude/setenv_shims.rs (set_env itself is verified, three macro expansions)",
+            "X: the split of a certificate's hooks into file hooks and certificate hooks (MainEventLoop::new); what the child processes do",
         ],
     },
     "C11": {
